@@ -62,6 +62,8 @@ class CallsMixin:
             return self.ho_contains(st, fr, ins, callee, args)
         if callee.startswith('slices::Contains[') or callee.startswith('slices::Index['):
             return self.ho_contains_val(st, fr, ins, callee, args)
+        if callee == 'sort::Search':
+            return self.ho_sort_search(st, fr, ins, callee, args)
         con = self.prog.cs.funcs.get(callee)
         if con is not None and not con.inline:
             sig = self.prog.sigs.get(callee) or {}
@@ -118,8 +120,7 @@ class CallsMixin:
                 targets.append(self.mod_target(ev, m.expr))
             except SpecError as ex:
                 cx.stale('%s.call[%s].modifies' % (me, short), str(ex))
-        if not con.pure:
-            st.bump_frontier('call')
+        st.bump_frontier('call')   # even side-effect free callees may allocate what they return
         for t in targets:
             self.havoc_target(st, t, 'mod')
         vals = []
@@ -169,6 +170,16 @@ class CallsMixin:
     def call_funcvalue(self, st, fr, b, i, ins, fv, args):
         sig = self.types.desc(fv.t)
         rtypes = [r['type'] for r in (sig.get('results') or [])]
+        if self.cx.contract.opts.get('callbacks') == 'pure':
+            self.cx.assumed_used.add('function-typed field callbacks in %s are assumed not to write memory under contract' % self.cx.short)
+            vals = []
+            st.callcount += 1
+            for k, rt in enumerate(rtypes):
+                v = V.fresh_val(self.types, rt, 'cb_%d' % st.callcount)
+                st.type_facts(v)
+                vals.append(v)
+            self.set_result(st, ins, vals)
+            return None
         return self.call_opaque(st, fr, ins, 'funcvalue ' + fv.t, args, rtypes)
 
     # ------------------------------------------------------------ higher-order library calls
@@ -227,6 +238,7 @@ class CallsMixin:
             cx.stale('%s.call[%s]' % (me, callee), str(ex))
             return self.call_opaque(st, fr, ins, callee, args)
         rt = ins['type']
+        ka, bodya, rngk = self.abs_index(s, k, bodyk, n)
         if 'IndexFunc' in callee:
             r = z3.Int(fresh_name('idx'))
             j = z3.Int(fresh_name('hj'))
@@ -235,8 +247,30 @@ class CallsMixin:
             st.assume(z3.ForAll([j], z3.Implies(z3.And(j >= 0, j < z3.If(r >= 0, r, n)), z3.Not(z3.substitute(bodyk, (k, j))))))
             st.regs[ins['name']] = scalar(rt, r)
         else:
-            st.regs[ins['name']] = scalar(rt, z3.Exists([k], z3.And(k >= 0, k < n, bodyk)))
+            st.regs[ins['name']] = scalar(rt, z3.Exists([ka], z3.And(rngk, bodya)))
         return None
+
+    def ho_sort_search(self, st, fr, ins, callee, args):
+        """sort.Search(n, f): some index in [0, n]; f must not write memory (checked on its body)"""
+        cx = self.cx
+        n, f = args
+        fnd = self.prog.funcs.get(f.fn) if f.fn else None
+        if fnd is None or self.body_writes(st, f.fn, fnd) not in ([],):
+            return self.call_opaque(st, fr, ins, callee, args)
+        cx.assumed_used.add('sort::Search (built-in contract: 0 <= result <= n, panics only if the predicate does)')
+        r = z3.Int(fresh_name('search'))
+        st.assume(z3.And(r >= 0, r <= n.term))
+        st.regs[ins['name']] = scalar(ins['type'], r)
+        return None
+
+    def abs_index(self, s, k, body, n):
+        """re-express a formula over the relative index k of slice s over the absolute index"""
+        off = s.lv[('o',)]
+        if ops.const_val(off) == 0:
+            return k, body, z3.And(k >= 0, k < n)
+        a = z3.Int(fresh_name('ha'))
+        body2 = z3.simplify(z3.substitute(body, (k, a - off)), som=True)
+        return a, body2, z3.And(a >= off, a < off + n)
 
     def ho_contains_val(self, st, fr, ins, callee, args):
         cx = self.cx
@@ -248,6 +282,7 @@ class CallsMixin:
         elem = st.load(st.elem_loc(s, k), facts=False)
         eq = V.eq_vals(types, Val(v.t, elem.lv), v, None)
         rt = ins['type']
+        ka, eqa, rngk = self.abs_index(s, k, eq, n)
         if 'Index[' in callee:
             r = z3.Int(fresh_name('idx'))
             j = z3.Int(fresh_name('hj'))
@@ -256,7 +291,7 @@ class CallsMixin:
             st.assume(z3.ForAll([j], z3.Implies(z3.And(j >= 0, j < z3.If(r >= 0, r, n)), z3.Not(z3.substitute(eq, (k, j))))))
             st.regs[ins['name']] = scalar(rt, r)
         else:
-            st.regs[ins['name']] = scalar(rt, z3.Exists([k], z3.And(k >= 0, k < n, eq)))
+            st.regs[ins['name']] = scalar(rt, z3.Exists([ka], z3.And(rngk, eqa)))
         return None
 
     # ------------------------------------------------------------ inlining
@@ -384,7 +419,13 @@ class CallsMixin:
                 return self.body_writes(st, callee, fnd)
             return 'all'
         sig = self.prog.sigs.get(callee) or {}
-        return self.contract_writes(st, con, sig)
+        real = None
+        if all(self.defined_outside(fr, a, body) for a in call['args']):
+            try:
+                real = [self.operand(st, fr, a) for a in call['args']]
+            except Exception:
+                real = None
+        return self.contract_writes(st, con, sig, real)
 
     def closure_static(self, fr, fnv):
         if fnv['k'] != 'reg':
@@ -461,7 +502,7 @@ class CallsMixin:
             return ('elems', tk, tuple(reversed(steps)))
         return ('cell', types.under(et), tuple(reversed(steps)))
 
-    def contract_writes(self, st, con, sig):
+    def contract_writes(self, st, con, sig, real=None):
         """region prefixes a contract's modifies clause can touch (by type)"""
         if not con.modifies:
             return []
@@ -473,8 +514,11 @@ class CallsMixin:
         try:
             env = {}
             if sig is not None:
-                for p in (sig.get('params') or []):
-                    env[p['name']] = V.fresh_val(types, p['type'], 'w_' + p['name'])
+                for k, p in enumerate(sig.get('params') or []):
+                    if real is not None and k < len(real):
+                        env[p['name']] = real[k]
+                    else:
+                        env[p['name']] = V.fresh_val(types, p['type'], 'w_' + p['name'])
             else:
                 return 'all'
             ev = Ev(self.cx, tmp, env, con.pkg, None, con.imports)
@@ -484,13 +528,15 @@ class CallsMixin:
                 except SpecError:
                     return 'all'
                 if t.kind == 'loc':
-                    out.append(((t.loc.fam, t.loc.tk, t.loc.static_path()), None))
+                    out.append(((t.loc.fam, t.loc.tk, t.loc.static_path()), t.loc.ref if real is not None else None))
                 elif t.kind == 'range':
                     if t.arr is not None:
                         return 'all'
-                    out.append((('elems', t.tk, ('[]',)), None))
+                    out.append((('elems', t.tk, ('[]',)), t.sl.lv[('b',)] if real is not None else None))
                 elif t.kind == 'map':
-                    out.append((('map', t.tk, ()), None))
+                    out.append((('map', t.tk, ()), t.ref if real is not None else None))
+                elif t.kind == 'region':
+                    out.append(((t.fam, t.tk, ()), None))
         finally:
             self.cx.solver_add = saved_solver_add
         return out
@@ -558,7 +604,7 @@ class CallsMixin:
             return self.builtin_copy(st, fr, ins, args)
         if name == 'append':
             return self.builtin_append(st, fr, b, i, ins, args)
-        if name in ('print', 'println'):
+        if name in ('print', 'println', 'close'):
             return None
         if name == 'recover':
             v = V.zero_val(types, rt)
